@@ -28,7 +28,11 @@ def valid(lp, np_):
 
 class GenBinding:
     def __init__(self, lp="eg", np_=None, labelmap="int", seed=9, n_jobs=1, backend=None, data_seed=5, dims=2, bin_name="none",
-                 epsilon=0.0, container="ndarray", nrows=10):
+                 epsilon=0.0, container="ndarray", nrows=10, perm_seed=None, shift=0, scale=1):
+        self.perm_seed = perm_seed
+        self.shift = shift
+        self.scale = scale
+        self._args = None
         self.lp = lp
         self.np = np_
         self.lmname = labelmap
@@ -66,7 +70,8 @@ class GenBinding:
     def describe(self):
         return {"lp": self.lp, "np": self.np, "labels": self.lmname, "seed": self.seed, "n_jobs": self.n_jobs,
                 "backend": self.backend, "dims": self.dims, "bin": self.bin_name, "epsilon": self.epsilon,
-                "container": self.container, "data_seed": self.data_seed}
+                "container": self.container, "data_seed": self.data_seed, "perm_seed": self.perm_seed,
+                "shift": self.shift, "scale": self.scale}
 
     def probe_labels(self, mab, full):
         first = self.spec_label(mab.arms[0])
@@ -97,22 +102,110 @@ class GenBinding:
     def new(self, arms, bin_name="none"):
         from mabwiser.mab import MAB
         lp, np_ = self.policies()
-        return MAB([self.lm[a] for a in arms], lp, np_, seed=self.seed, n_jobs=self.n_jobs, backend=self.backend)
+        given = [self.lm[a] for a in arms]
+        mab = MAB(given, lp, np_, seed=self.seed, n_jobs=self.n_jobs, backend=self.backend)
+        self.given_arms = (given, list(given), mab)
+        return mab
 
     # ---- arguments ----------------------------------------------------------
     def batch(self, ids):
         rows = [self.data[i - 1] for i in ids]
+        if self.perm_seed is not None:
+            rows = list(rows)
+            random.Random(self.perm_seed * 1000 + len(ids) + ids[0]).shuffle(rows)
         d = [self.lm[a] for a, _, _ in rows]
-        r = [float(x) for _, x, _ in rows] if not (self.lp == "ts" and self.bin_name == "none") else [int(x) for _, x, _ in rows]
+        binary = self.lp == "ts" and self.bin_name == "none"
+        r = [int(x) for _, x, _ in rows] if binary else [float(x) * self.scale + self.shift for _, x, _ in rows]
         c = [[float(v) for v in x] for _, _, x in rows]
-        if self.container == "list":
+        kind = self.container
+        if kind == "list":
             pass
-        elif self.container == "pandas":
+        elif kind == "pandas":
             import pandas as pd
             d, r, c = pd.Series(d), pd.Series(r), pd.DataFrame(c)
+        elif kind == "series1" and self.dims == 1:
+            import pandas as pd
+            d, r, c = np.asarray(d), np.asarray(r), pd.Series([row[0] for row in c])
+        elif kind == "fortran":
+            d, r, c = np.asarray(d), np.asarray(r), np.asfortranarray(np.asarray(c))
+        elif kind == "view":
+            wide = np.zeros((len(c), 2 * self.dims))
+            wide[:, ::2] = np.asarray(c)
+            big = np.zeros(2 * len(r))
+            big[::2] = r
+            d, r, c = np.asarray(d), (big[::2] if not binary else np.asarray(r)), wide[:, ::2]
+        elif kind == "int":
+            d, c = np.asarray(d), np.asarray(c).astype(int)
+            r = np.asarray(r) if any(float(x) != int(x) for x in r) else np.asarray(r).astype(int)
         else:
             d, r, c = np.asarray(d), np.asarray(r), np.asarray(c)
         return (d, r, c) if self.contextual else (d, r)
+
+    def query_args(self, m):
+        ctx = self.contexts(m)
+        if ctx is None:
+            return None
+        kind = self.container
+        if kind == "pandas":
+            import pandas as pd
+            return pd.DataFrame(ctx)
+        if kind == "series1" and self.dims == 1:
+            import pandas as pd
+            return pd.Series([row[0] for row in ctx])
+        if kind == "fortran":
+            return np.asfortranarray(np.asarray(ctx))
+        if kind == "view":
+            wide = np.zeros((len(ctx), 2 * self.dims))
+            wide[:, ::2] = np.asarray(ctx)
+            return wide[:, ::2]
+        if kind == "int":
+            return np.asarray(ctx).astype(int)
+        if kind == "list":
+            return ctx
+        return np.asarray(ctx)
+
+    def remember(self, args):
+        import pickle
+        self._args = [(a, pickle.dumps(a, protocol=4)) for a in args if a is not None]
+        return args
+
+    def caller_changed(self):
+        import pickle
+        if not self._args:
+            return None
+        for obj, before in self._args:
+            if pickle.dumps(obj, protocol=4) != before:
+                return "%s of %d elements" % (type(obj).__name__, len(obj))
+        return None
+
+    def extra_output(self, mab):
+        if self.lp == "softmax" and self.np is None:
+            out = dict(mab._imp.arm_to_expectation)
+            if not all(mab._imp.arm_to_count[a] > 0 for a in mab.arms):
+                out = {a: float("nan") for a in out}          # the shift law is stated for histories with every arm observed
+            return out
+        return None
+
+    def agree(self, got, want, base):
+        """Relation between this binding's outputs and the reference binding's (C20 reward laws)."""
+        if self.shift == 0 and self.scale == 1:
+            return base(got, want, 1e-9 if self.perm_seed is not None else 0.0)
+        op, g, gx = got
+        _, w, wx = want
+        if op != "predict_expectations":
+            return True
+        if self.lp == "softmax":
+            if any(v != v for _, v in gx) or any(v != v for _, v in wx):
+                return True
+            return base(gx, wx, 1e-9)
+        rows_g = g if isinstance(g, list) and g and isinstance(g[0], list) else [g]
+        rows_w = w if isinstance(w, list) and w and isinstance(w[0], list) else [w]
+        for rg, rw in zip(rows_g, rows_w):
+            for (ag, vg), (aw, vw) in zip(rg, rw):
+                want_v = vw * self.scale + (self.shift if self.lp in ("eg", "ucb1") else 0)
+                if not (abs(vg - want_v) <= 1e-9 * max(1.0, abs(want_v)) or (vw == 0 and vg == 0)):
+                    return False
+        return True
 
     def contexts(self, m):
         if m == 0 and not self.contextual:
@@ -124,7 +217,7 @@ class GenBinding:
         op = label["op"]
         try:
             if op in ("fit", "partial_fit"):
-                return "ok", getattr(mab, op)(*self.batch(label["rows"]))
+                return "ok", getattr(mab, op)(*self.remember(self.batch(label["rows"])))
             if op == "add_arm":
                 return "ok", mab.add_arm(self.lm[label["arm"]])
             if op == "remove_arm":
@@ -132,9 +225,10 @@ class GenBinding:
             if op == "warm_start":
                 q = Fraction(int(label["q"][0]), int(label["q"][1]))
                 feats = {self.lm[a]: list(v) for a, v in self.feat.items() if self.lm[a] in mab.arms}
+                self.remember((feats,))
                 return "ok", mab.warm_start(feats, float(q))
             if op in ("predict", "predict_expectations"):
-                return "ok", getattr(mab, op)(self.contexts(label["m"]))
+                return "ok", getattr(mab, op)(*self.remember((self.query_args(label["m"]),)))
             if op == "reject":
                 return self.reject(mab, label["kind"])
         except Exception as error:  # noqa
